@@ -125,7 +125,8 @@ def run(repo, tier):
     # L2/L3 for the passes between label creation and baking (so that "final offset" means byte offset)
     for compress in (False, True):
         for name, node, inc, out in LR.class_flow(facts, compress):
-            if name in LR.LABEL_PASSES_EXPECTED or name == 'resolve_immediates':
+            if True:
+                # every pass: a label equals the byte offset in the output only if size() is what each item finally emits
                 LR.check_conservation(rep, LR.pass_analysis(facts, name, frozenset(inc)), 'R8.layout', name in LR.LABEL_PASSES_EXPECTED)
     LB.check_L1(rep, facts, 'R8.layout.establish')
     rep.floor('baking evaluation sites', 1)
